@@ -274,6 +274,7 @@ type memMonitor struct {
 	gbase   uint64
 	evals   uint64
 	exclude int // variable that may change in the current step (-1 none); hist worlds
+	epoch   uint64
 }
 
 func newMemMonitor(sc *Scenario, w *World) *memMonitor {
@@ -310,12 +311,13 @@ func (m *memMonitor) check(t, op int, site uint32) string {
 		return fmt.Sprintf("%s v%d was modified while task %d executed op #%d (detected before %s)", kind, i, t, op, siteStr(site))
 	}
 	if g := decimal.VerifGlobalsDigest(); g != m.gbase {
-		if verifrt.LocksHeld() > 0 {
+		if verifrt.LocksHeld() > 0 || verifrt.LockEpoch != m.epoch {
 			m.gbase = g
 		} else {
 			return fmt.Sprintf("package-level state of the library was modified, outside any lock, while task %d executed op #%d (detected before %s)", t, op, siteStr(site))
 		}
 	}
+	m.epoch = verifrt.LockEpoch
 	return ""
 }
 
